@@ -55,4 +55,23 @@ structure DrEnv where
   geminiRequest : PState → List Char → PState                -- `self._handle_gemini_request(url)`
   processUpload : PState → PState                            -- `self._process_titan_upload()`
 
+/-- what `_handle_gemini_request` and `_process_titan_upload` call and do not contain -/
+structure DispEnv where
+  mw : Bool                                                   -- `self.middleware` is set
+  upload : Bool                                               -- `self.upload_handler` is set
+  geminiFromLine : List Char → Except (List Char) Unit        -- `GeminiRequest.from_line(url)` (ValueError text)
+  sendError : PState → Nat → List Char → PState               -- `self._send_error_response(status, message)`
+  route : PState → PState                                     -- `self._route_request(request, client_ip)`
+  startMwG : PState → PState × Unit                           -- `asyncio.create_task(self.middleware.process_request(…))` for a Gemini request
+  startMwT : PState → PState × Unit                           -- … for a Titan upload
+  startUpload : PState → PState                               -- `self._start_titan_upload(client_ip)`
+
+/-- what `_handle_middleware_result` calls and does not contain -/
+structure MwEnv where
+  taskResult : Except Unit (Bool × Option (List Char))        -- `task.result()`: the chain's (allow, response line), or its exception
+  sendError : PState → Nat → List Char → PState
+  reject : PState → Option (List Char) → PState               -- `self._send_middleware_rejection(error_response)`
+  route : PState → PState
+  startUpload : PState → PState
+
 end Srv
